@@ -24,6 +24,15 @@ fn client(c: usize, db: &str, prog: &str) -> Script {
         "one" => {
             s = s.q(&format!("SELECT 1 /*{}*/", tag(c, 0, 0)));
         }
+        // a transaction that has failed is still a running transaction until its ROLLBACK
+        "failed-txn" => {
+            s = s
+                .q(&format!("BEGIN /*{}*/", tag(c, 0, 0)))
+                .q(&format!("SELECT ERR! /*{}*/", tag(c, 0, 1)))
+                .q(&format!("SELECT 1 /*{}*/", tag(c, 0, 2)))
+                .q(&format!("ROLLBACK /*{}*/", tag(c, 0, 3)))
+                .q(&format!("SELECT 2 /*{}*/", tag(c, 1, 0)));
+        }
         // batches the pooler answers by itself (a lone Sync) between the transactions: the client is
         // between transactions all the same
         "sync-autos" => {
@@ -80,6 +89,28 @@ pub fn scenario(pool_size: u32, progs: &[&str], admin: &[&str], per_pool: bool) 
         opts: Opts::default(),
         meta: serde_json::json!({"nclients": progs.len(), "per_pool": per_pool}),
     }
+}
+
+/// A RELOAD lands between PAUSE and RESUME and replaces the paused pool (its pool_size changed) or takes it
+/// out of the file: the clients held by the pause wait on the old pool object; RESUME (or the pool's
+/// disappearance) must still let every one of them go.
+pub fn reload_scenario(per_pool: bool, kind: &str) -> Scenario {
+    let mut sc = scenario(1, &["autos", "two-txn"], &["PAUSE", "RESUME"], per_pool);
+    let mut cfg = Cfg::one(PoolCfg::simple("db", "transaction", 2, 1, 0));
+    let mut p2 = PoolCfg::simple("db2", "transaction", 1, 1, 0);
+    p2.shards[0].servers[0].0 = "pg-other".into();
+    if kind == "removed" {
+        cfg.pools.clear();
+    }
+    cfg.pools.push(p2);
+    sc.alt_tomls = vec![cfg.toml()];
+    let admin = sc.actors.len() - 1;
+    let pause = sc.actors[admin].steps[0].clone();
+    let resume = sc.actors[admin].steps[1].clone();
+    sc.actors[admin].steps = vec![pause, Step::WriteConfig(0), Step::Admin("RELOAD".into()), resume];
+    sc.name = format!("C16 pool_size=1 progs=autos+two-txn admin=PAUSE;RELOAD({});RESUME scope={}", kind, if per_pool { "pool" } else { "global" });
+    sc.meta["reload"] = serde_json::json!(kind);
+    sc
 }
 
 /// pool_size 1: c0 holds the only server inside a transaction, c1's first statement is already waiting
@@ -241,9 +272,56 @@ pub fn oracle(sc: &Scenario, out: &Outcome) -> Vec<Violation> {
     }
     // (2) transactions complete normally, (4) nobody gets an error because of PAUSE
     for c in 0..=nclients {
-        let errs: Vec<String> = client_msgs(log, c).iter().filter(|(_, m)| m.code == b'E').map(|(_, m)| m.err_field(b'M').unwrap_or_default()).collect();
+        let errs: Vec<String> = client_msgs(log, c)
+            .iter()
+            .filter(|(_, m)| m.code == b'E')
+            .map(|(_, m)| m.err_field(b'M').unwrap_or_default())
+            // (the failed-txn program asks for these two itself)
+            .filter(|e| !e.contains("ERR!") && !e.contains("current transaction is aborted"))
+            // (a pool taken out of the file by the RELOAD: its clients are told so)
+            .filter(|_| sc.meta.get("reload").and_then(|r| r.as_str()) != Some("removed"))
+            .collect();
         if !errs.is_empty() {
             vs.push(v("C16.error", format!("C16.error:{}", ctx), format!("client {} received errors {:?}", c, errs)));
+        }
+    }
+    // (2) a statement of a transaction already running is not held: no RESUME lies between its being sent and its
+    // reaching the server
+    if !out.blocked {
+        for e in log {
+            if let Rec::BRecv { msg, .. } = &e.rec {
+                if is_control(msg) {
+                    continue;
+                }
+                if let Some(t) = msg_tag(msg) {
+                    if t.c < nclients && t.s > 0 {
+                        let sent = log.iter().find(|x| matches!(&x.rec, Rec::CSend { c, bytes } if *c == t.c && find_tag(bytes) == Some(t))).map(|x| x.seq).unwrap_or(0);
+                        let held = log.iter().any(|x| x.seq > sent && x.seq < e.seq && matches!(&x.rec, Rec::CSend { c, bytes } if *c == admin_slot && String::from_utf8_lossy(bytes).contains("RESUME")));
+                        if held {
+                            vs.push(v("C16.running-held", format!("C16.running-held:{}", ctx), format!("statement {:?} of a transaction that was already running waited for RESUME", t)));
+                        }
+                    }
+                }
+            }
+        }
+    }
+    // every statement of a running transaction runs on the connection its first statement ran on
+    {
+        let mut conn_of: std::collections::BTreeMap<(usize, usize), usize> = std::collections::BTreeMap::new();
+        for e in log {
+            if let Rec::BRecv { conn, msg, .. } = &e.rec {
+                if is_control(msg) {
+                    continue;
+                }
+                if let Some(t) = msg_tag(msg) {
+                    if t.c < nclients {
+                        let first = *conn_of.entry((t.c, t.t)).or_insert(*conn);
+                        if first != *conn {
+                            vs.push(v("C16.transaction-split", format!("C16.transaction-split:{}", ctx), format!("statement {:?} ran on backend conn {} but its transaction began on conn {}", t, conn, first)));
+                        }
+                    }
+                }
+            }
         }
     }
     // (4) the other pool is not held: its statements are never delayed behind a RESUME when only db is paused
@@ -272,9 +350,9 @@ pub fn build(tier: &str) -> SimCheck {
     for pool_size in [1u32, 2] {
         for per_pool in [false, true] {
             let prog_sets: Vec<Vec<&str>> = if thorough {
-                vec![vec!["two-txn", "two-txn"], vec!["autos", "two-txn"], vec!["two-txn", "autos", "one"], vec!["autos", "autos", "autos"], vec!["sync-autos", "ext-autos"], vec!["sync-autos", "two-txn", "one"]]
+                vec![vec!["two-txn", "two-txn"], vec!["autos", "two-txn"], vec!["two-txn", "autos", "one"], vec!["autos", "autos", "autos"], vec!["sync-autos", "ext-autos"], vec!["sync-autos", "two-txn", "one"], vec!["failed-txn", "two-txn"], vec!["failed-txn", "autos", "one"]]
             } else {
-                vec![vec!["two-txn", "autos"], vec!["one", "one", "one"], vec!["sync-autos", "ext-autos"]]
+                vec![vec!["two-txn", "autos"], vec!["one", "one", "one"], vec!["sync-autos", "ext-autos"], vec!["failed-txn", "one"]]
             };
             for progs in prog_sets {
                 let admin_sets: Vec<Vec<&str>> = if thorough {
@@ -288,6 +366,14 @@ pub fn build(tier: &str) -> SimCheck {
             }
         }
     }
+    for per_pool in [false, true] {
+        for kind in ["changed", "removed"] {
+            if kind == "removed" && per_pool {
+                continue; // RESUME db,alice would name a pool that is gone
+            }
+            scenarios.push(reload_scenario(per_pool, kind));
+        }
+    }
     scenarios.push(queued_scenario(false));
     scenarios.push(queued_scenario(true));
     scenarios.push(queued_twice_scenario(false));
@@ -297,7 +383,7 @@ pub fn build(tier: &str) -> SimCheck {
         oracle: Box::new(oracle),
         bound: if thorough { 3 } else { 2 },
         limits: Limits { max_wall_s: if thorough { 7200.0 } else { 55.0 }, ..Default::default() },
-        rule: "scenario = pool_size {1,2} x global / per-pool PAUSE x client programs (2-3 clients of the paused pool with multi-statement and autocommit transactions, extended-protocol transactions, lone Sync batches (answered by the pooler itself) between transactions, one client of another pool) x admin sequence (P;R / P;R;P;R / R;P;R / P;P;R), plus the scripted 'statement already queued for the only server when PAUSE arrives' scenario; all schedules with <= bound deviations: PAUSE and RESUME land while clients are idle, arriving, mid-transaction, between transactions or queued for a connection".into(),
+        rule: "scenario = pool_size {1,2} x global / per-pool PAUSE x client programs (2-3 clients of the paused pool with multi-statement and autocommit transactions, extended-protocol transactions, lone Sync batches (answered by the pooler itself) between transactions, a transaction that fails and is rolled back, one client of another pool) x admin sequence (P;R / P;R;P;R / R;P;R / P;P;R; also P;RELOAD;R where the reload replaces or removes the paused pool), plus the scripted 'statement already queued for the only server when PAUSE arrives' scenario; all schedules with <= bound deviations: PAUSE and RESUME land while clients are idle, arriving, mid-transaction, between transactions or queued for a connection".into(),
         assumptions: vec!["paused interval = from the PAUSE reply being read by the admin client to the RESUME being sent".into(), "interleavings below await-point granularity are decided by the loom part".into()],
     }
 }
